@@ -602,8 +602,8 @@ class implicitmodel(timemodel):
         self.neq = field.neq
         self.dim = self.neq * field.nelem
         self.jacobian = np.zeros([self.dim, self.dim])
-        eps = [
-            epsdiff * math.sqrt(np.spacing(1.0)) * np.sum(np.abs(q)) / field.nelem
+        eps = [ # relative perturbation epsdiff of the mean magnitude (absolute epsdiff for an all-zero component)
+            epsdiff * (np.sum(np.abs(q)) / field.nelem or 1.0)
             for q in field.data
         ]
         self.calcrhs(field)
